@@ -117,6 +117,7 @@ def run(ctx):
     hist, samples = {}, []
     plans = [
         ("spec", ["--seed", ctx.seed, "--count", 200 if quick else 4000, "--max-ops", 40 if quick else 80, "--reopen-pct", 5]),
+        ("many", ["--seed", ctx.seed + 23, "--count", 6 if quick else 80, "--max-ops", 10, "--many-entries"]),
         ("churn", ["--seed", ctx.seed + 17, "--count", 10 if quick else 150, "--max-ops", 12, "--mini-churn"]),
         ("specbig", ["--seed", ctx.seed + 9, "--count", 25 if quick else 300, "--max-ops", 40, "--big"]),
     ]
